@@ -97,6 +97,23 @@ def build(spec):
         prog.run_options["shots"] = spec["shots"]
     if spec.get("cutoff") is not None:
         prog.backend_options["cutoff_dim"] = spec["cutoff"]
+    for k, v in (spec.get("run_extra") or {}).items():
+        prog.run_options[k] = v
+    for k, v in (spec.get("backend_extra") or {}).items():
+        prog.backend_options[k] = v
+    hist = spec.get("history")
+    if hist:
+        # state kept between calls: parameters hold values after binding / after a run
+        if hist.get("bind"):
+            prog.bind_params({free[k]: v for k, v in hist["bind"].items() if k in free})
+        if hist.get("run"):
+            tgt, prog._target = prog._target, None
+            ro, bo = dict(prog.run_options), dict(prog.backend_options)
+            prog.run_options.clear(); prog.backend_options.clear()
+            np.random.seed(sum(map(ord, spec.get("name", ""))) % 9973)     # the same outcomes on every rebuild
+            sf.Engine("gaussian").run(prog, args={k: v for k, v in hist.get("args", {}).items() if k in free})
+            prog._target = tgt
+            prog.run_options.update(ro); prog.backend_options.update(bo)
     return prog
 
 
@@ -135,9 +152,10 @@ def face(a, loop_vars):
     if atom:
         plain = a.name
     else:
+        import sympy
         f = a
         for s in a.free_symbols:
-            f = f.subs(s, s.name)
+            f = f.subs(s, sympy.Symbol(s.name))
         plain = str(f)
     loop = None
     for i, p in enumerate(loop_vars):
@@ -146,11 +164,80 @@ def face(a, loop_vars):
     return dict(text=str(a), plain=plain, atom=atom, loop=loop)
 
 
+def current_value(a):
+    """the number the expression evaluates to right now (bound / measured atoms), else None"""
+    import strawberryfields.parameters as sfpar
+    if not list(a.free_symbols):
+        return None
+    try:
+        v = sfpar.par_evaluate(a)
+        v = np.asarray(v)
+        return sc(v.item()) if v.ndim == 0 else None
+    except Exception:  # noqa: BLE001   (ParameterError, or a plain Symbol that cannot be evaluated)
+        return None
+
+
 def sym_json(a, loop_vars):
     syms = list(a.free_symbols)
     meas = sorted({int(s.name[1:]) for s in syms if _is_measured(s)})
     frees = sorted({s.name for s in syms if not _is_measured(s)})
-    return dict(pos=face(a, loop_vars), neg=face(-a, loop_vars), meas=meas, frees=frees)
+    return dict(pos=face(a, loop_vars), neg=face(-a, loop_vars), meas=meas, frees=frees, val=current_value(a))
+
+
+def strip_val(j):
+    """the same canonical form without the values currently held by symbolic parameters"""
+    if isinstance(j, dict):
+        return {k: strip_val(v) for k, v in j.items() if not (k == "val" and "pos" in j)}
+    if isinstance(j, list):
+        return [strip_val(v) for v in j]
+    return j
+
+
+def parse_expression(s, k_loop=0):
+    """what the readers must make of an expression string (independent of parameters.par_from_str):
+    canonical Sym of the expression over FreeParameter / measured atoms; None if SymPy cannot parse it"""
+    import sympy
+    from sympy.parsing.sympy_parser import parse_expr
+    import strawberryfields.parameters as sfpar
+    t = s.replace("{", "").replace("}", "")
+    names = set()
+    for m in re.finditer(r"[A-Za-z_]\w*", t):
+        if m.start() > 0 and (t[m.start() - 1].isalnum() or t[m.start() - 1] in "._"):
+            continue            # inside a number such as 1e-05
+        rest = t[m.end():].lstrip()
+        if not rest.startswith("("):
+            names.add(m.group(0))
+    try:
+        e = parse_expr(t, local_dict={n: sympy.Symbol(n) for n in names})
+        e = e.subs({x: sfpar.FreeParameter(x.name) for x in e.free_symbols if not re.fullmatch(r"q\d+", x.name)})
+        return sym_json(e, [sfpar.FreeParameter(f"p{i}") for i in range(k_loop)])
+    except Exception:  # noqa: BLE001
+        return None
+
+
+def _strings(j, out):
+    if isinstance(j, dict):
+        if set(j) == {"str"}:
+            out.add(j["str"])
+        for v in j.values():
+            _strings(v, out)
+    elif isinstance(j, list):
+        for v in j:
+            _strings(v, out)
+
+
+def parse_table(irj, braces_only, k_loop=0):
+    """the table P handed to the model readers: [string, Sym] for the strings of the IR"""
+    ss = set()
+    _strings(irj.get("ops", irj.get("stmts")), ss)
+    out = []
+    for x in sorted(ss):
+        if braces_only and "{" not in x:
+            continue
+        e = parse_expression(x, k_loop)
+        if e is not None:
+            out.append([x, e])
+    return out
 
 
 def _shape_flat(x):
@@ -201,9 +288,11 @@ def prog_json(prog):
     t = None
     if tdm:
         t = dict(N=[int(x) for x in prog.N], params=[[sc(x) for x in np.array(r).tolist()] for r in prog.tdm_params])
+    extra = [[k, val_json(v)] for k, v in prog.run_options.items() if k != "shots"] + \
+        [[k, val_json(v)] for k, v in prog.backend_options.items() if k != "cutoff_dim"]
     return dict(name=str(prog.name), n=int(prog.num_subsystems), target=prog.target,
                 shots=prog.run_options.get("shots"), cutoff=prog.backend_options.get("cutoff_dim"),
-                tdm=t, cmds=[cmd_json(c, loop) for c in prog.circuit])
+                tdm=t, extra=extra, cmds=[cmd_json(c, loop) for c in prog.circuit])
 
 
 def bb_json(bb):
@@ -218,6 +307,7 @@ def bb_json(bb):
                 shots=opts.get("shots"), cutoff=opts.get("cutoff_dim"),
                 tdm=(bb.programtype["options"].get("temporal_modes") if tdm else None),
                 vars=[[sc(x) for x in np.array(v).flatten().tolist()] for k, v in bb._var.items() if is_ptype(k)],
+                extra=[[k, val_json(v)] for k, v in opts.items() if k not in ("shots", "cutoff_dim")],
                 ops=ops)
 
 
@@ -415,9 +505,55 @@ def rand_spec(rng, idx, features):
             spec["shots"] = rng.randint(1, 50)
         if rng.random() < 0.6:
             spec["cutoff"] = rng.randint(3, 9)
+    if "extra_opts" in features and rng.random() < 0.6:
+        spec["target"] = spec["target"] or "gaussian"
+        spec["shots"] = spec["shots"] or 3
+        if rng.random() < 0.7:
+            spec["run_extra"] = {"seed": rng.randint(1, 9)}
+        if rng.random() < 0.7:
+            spec["backend_extra"] = {"batch_size": rng.randint(2, 4)}
     if "options_no_target" in features and spec["target"] is None and rng.random() < 0.5:
         spec["shots"] = rng.randint(1, 50)
         spec["cutoff"] = rng.choice([None, 5])
+    return spec
+
+
+def rand_history_spec(rng, idx):
+    """a runnable Gaussian feed-forward program with free parameters, plus a history: the parameters
+    were bound, or the program was run, before it is written (state kept between calls)"""
+    n = rng.randint(2, 4)
+    ops, measured = [], []
+    names = ["x", "alpha"]
+    for _ in range(rng.randint(2, 6)):
+        r = rng.random()
+        free_modes = [m for m in range(n) if m not in measured]
+        if r < 0.3 and len(free_modes) > 1:
+            m = rng.choice(free_modes)
+            ops.append(dict(cls="MeasureHomodyne", regs=[m], pars=[rng.choice([0.0, 0.25, PI / 2])]))
+            measured.append(m)
+            continue
+        if not free_modes:
+            break
+        cls = rng.choice(["Rgate", "Sgate", "Dgate", "Zgate", "Xgate"])
+        regs = [rng.choice(free_modes)]
+        pars = [rng.randint(-4, 4) / 8 for j in range(GATES1[cls])]
+        r2 = rng.random()
+        if measured and r2 < 0.45:
+            pars[0] = {"m": rng.choice(measured), "k": rng.choice([1, 2, 0.5, -1]), "fn": rng.choice([None, None, "sin"])}
+        elif r2 < 0.8:
+            pars[0] = {"free": rng.choice(names), "k": rng.choice([1, 1, 2, -0.5]), "add": rng.choice([0, 0, 1])}
+        op = dict(cls=cls, regs=regs, pars=pars)
+        if rng.random() < 0.3:
+            op["dagger"] = True
+        ops.append(op)
+    if not ops:
+        ops.append(dict(cls="Rgate", regs=[0], pars=[{"free": "x", "k": 1, "add": 0}]))
+    used = max(max(o["regs"]) for o in ops)
+    if used < n - 1:
+        ops.append(dict(cls="Vacuum", regs=[n - 1], pars=[]))
+    vals = {"x": rng.choice([0.25, 0.5, -0.125]), "alpha": rng.choice([0.75, 0.125])}
+    spec = dict(name=f"h{idx}", n=n, target=None, shots=None, cutoff=None, tdm=None, ops=ops)
+    spec["history"] = rng.choice([dict(bind=vals), dict(run=True, args=vals), dict(run=True, args=vals)])
     return spec
 
 
@@ -492,7 +628,10 @@ def par_kind(p):
     if "list" in p:
         return "list"
     if "m" in p:
-        return "measured-fn" if p.get("fn") else "measured"
+        if p.get("fn"):
+            # the XIR library parser drops the argument of a negated call: "-sin(q1)" is read as "-sin"
+            return "measured-negfn" if p.get("k", 1) == -1 else "measured-fn"
+        return "measured"
     if "free" in p:
         return "free"
     if "loop" in p:
